@@ -169,6 +169,14 @@ func propC15(w *World, r *Report, tier string) {
 		file := w.Fset.Position(fn.Pos()).Filename
 		return !strings.HasSuffix(file, "qos_rule.go") && !strings.HasSuffix(file, "qos_flow_desc.go")
 	})
+	checkSerialiserLoops(w, r, "nasType", func(fn *ssa.Function) bool {
+		file := w.Fset.Position(fn.Pos()).Filename
+		if !strings.HasSuffix(file, "qos_rule.go") && !strings.HasSuffix(file, "qos_flow_desc.go") {
+			return false
+		}
+		return fn.Name() == "MarshalBinary" || strings.HasPrefix(fn.Name(), "build")
+	})
+	r.Expect("seq.all-items", 6)
 	r.Expect("seq.must-read", 5)
 	r.Expect("seq.fresh-elem", 6)
 	// factories
